@@ -195,6 +195,15 @@ func TestVerifC18(t *testing.T) {
 			}
 			return
 		}
+		if c.Index%25 == 7 {
+			// a raw legacy peer whose initialize names a version other than the one that is negotiated
+			spec := genC18RawLegacy(c.R)
+			c.SetSpec(spec)
+			if c.Bubble("", func() { runC18RawLegacy(c, spec) }) {
+				decideC18RawLegacy(c, spec)
+			}
+			return
+		}
 		spec := genC18(c.R, c.Index)
 		c.SetSpec(spec)
 		var w *c18World
